@@ -263,7 +263,7 @@ PROPS = {
             "assumptions": SECRET_ASSUME},
     "C10": text_prop("C10", [text_checks.words_scope, text_checks.hashseed_scope]),
     "C11": dict(text_prop("C11", [text_checks.as_scope]), modules=["Netconan.Props.C11", "Netconan.Props.SrcAs"]),
-    "C12": text_prop("C12", [text_checks.pipeline_corr, text_checks.structure_scope, text_checks.order_scope, iptext_checks.long_line_scope, files_checks.files_scope]),
+    "C12": text_prop("C12", [text_checks.pipeline_corr, text_checks.structure_scope, text_checks.order_scope, iptext_checks.long_line_scope, files_checks.files_scope, ip_scenarios.scenario_scope]),
     "C13": text_prop("C13", [text_checks.pipeline_corr, text_checks.determinism_scope, text_checks.hashseed_scope]),
     "C14": text_prop("C14", [text_checks.pipeline_corr, text_checks.total_scope, ip_scenarios.scenario_scope]),
     "C15": text_prop("C15", [text_checks.pipeline_corr, text_checks.compose_scope]),
